@@ -77,7 +77,7 @@ pub fn interp1d_linear_unchecked(
         }
 
         // out of bounds, optionally extrapolate
-        if idx == 0 || idx > n {
+        if idx == 0 || tgt[i] > x[n - 1] {
             match extrapolate {
                 ExtrapolationMode::Panic => panic!(
                     "Target out of bounds, need to extrapolate, but extrapolation mode is panic!"
@@ -85,7 +85,7 @@ pub fn interp1d_linear_unchecked(
                 ExtrapolationMode::Fill(left, right) => {
                     if idx == 0 {
                         interp.push(left);
-                    } else if idx > n {
+                    } else if tgt[i] > x[n - 1] {
                         interp.push(right);
                     }
                 }
@@ -97,10 +97,10 @@ pub fn interp1d_linear_unchecked(
                         interp.push(-slope * (x[0] - tgt[i]) + y[0]);
                     }
                     // extrapolate right
-                    else if idx > n {
+                    else if tgt[i] > x[n - 1] {
                         /* print("extrapolating right ", tgt[i]); */
-                        let slope = (y[n] - y[n - 1]) / (x[n] - x[n - 1]);
-                        interp.push(slope * (tgt[i] - x[n]) + y[n]);
+                        let slope = (y[n - 1] - y[n - 2]) / (x[n - 1] - x[n - 2]);
+                        interp.push(slope * (tgt[i] - x[n - 1]) + y[n - 1]);
                     }
                 }
             }
